@@ -64,7 +64,8 @@ type Interp struct {
 	Syms        []SymInfo
 	symOf       map[CellKey]Sym
 	symVIDs     map[Sym]int64
-	objBySite   map[ssa.Value]*Object
+	objBySite   map[siteKey]*Object
+	instrIDs    map[ssa.Instruction]int
 	objByName   map[string]*Object
 	Objects     []*Object
 	Inv         map[string]*Invariant
@@ -90,7 +91,7 @@ func NewInterp(prog *ssa.Program, repo func(*types.Package) bool) *Interp {
 	it := &Interp{
 		Prog: prog, RepoPkg: repo,
 		symOf: map[CellKey]Sym{}, symVIDs: map[Sym]int64{},
-		objBySite: map[ssa.Value]*Object{}, objByName: map[string]*Object{},
+		objBySite: map[siteKey]*Object{}, objByName: map[string]*Object{}, instrIDs: map[ssa.Instruction]int{},
 		Inv: map[string]*Invariant{}, Intercepts: map[*ssa.Function]Intercept{},
 		MaxDepth: 40, UnrollLimit: 300, cfgs: map[*ssa.Function]*cfgInfo{},
 		CellThr: map[CellKey][]int64{}, fnThr: map[*ssa.Function][]int64{},
@@ -110,18 +111,71 @@ func typeKeyOf(t types.Type) string {
 }
 
 // ObjectFor returns the abstract object of an allocation site.
+//
+// Objects are identified by allocation site plus the chain of call sites that
+// led to it (there is no recursion, so the chains are finite): a helper that
+// allocates (a closure constructor capturing its parameters) yields a distinct
+// object per call site instead of one merged object.
 func (it *Interp) ObjectFor(site ssa.Value, t types.Type, name string, mode ObjMode) *Object {
-	if o, ok := it.objBySite[site]; ok {
+	key := siteKey{site: site}
+	if _, isGlobal := site.(*ssa.Global); !isGlobal {
+		key.ctx = it.ctxKey()
+	}
+	if o, ok := it.objBySite[key]; ok {
 		return o
 	}
 	it.nextObj++
+	if key.ctx != "" {
+		name = name + "<" + it.ctxName() + ">"
+	}
 	o := &Object{ID: it.nextObj, Name: name, T: t, Site: site, Mode: mode, TypeKey: typeKeyOf(t)}
 	if g, ok := site.(*ssa.Global); ok {
 		o.TypeKey = "global:" + g.Pkg.Pkg.Name() + "." + g.Name()
 	}
-	it.objBySite[site] = o
+	it.objBySite[key] = o
 	it.Objects = append(it.Objects, o)
 	return o
+}
+
+type siteKey struct {
+	site ssa.Value
+	ctx  string
+}
+
+func (it *Interp) instrID(at ssa.Instruction) int {
+	if id, ok := it.instrIDs[at]; ok {
+		return id
+	}
+	id := len(it.instrIDs) + 1
+	it.instrIDs[at] = id
+	return id
+}
+
+func (it *Interp) ctxKey() string {
+	if len(it.CallSites) == 0 {
+		return ""
+	}
+	var sb strings.Builder
+	for _, at := range it.CallSites {
+		if at == nil {
+			continue
+		}
+		sb.WriteString(strconv.Itoa(it.instrID(at)))
+		sb.WriteByte('.')
+	}
+	return sb.String()
+}
+
+func (it *Interp) ctxName() string {
+	var parts []string
+	for _, at := range it.CallSites {
+		if at == nil || at.Parent() == nil {
+			continue
+		}
+		pos := at.Parent().Prog.Fset.Position(at.Pos())
+		parts = append(parts, fmt.Sprintf("%s:%d", shortFn(at.Parent()), pos.Line))
+	}
+	return strings.Join(parts, "/")
 }
 
 // NewObject creates a synthetic object.
